@@ -17,4 +17,5 @@ def rules(ctx, tier):
         lambda: search.rule_finderid(ctx),
         lambda: search.rule_unfoldall(ctx),
         lambda: memo.rule_nostate(ctx),
+        lambda: search.rule_nonerow(ctx),
     ]
